@@ -119,7 +119,7 @@ func (e *env) exprs() {
 				}
 				return r
 			}
-			form := iops.AllForms[t%6]
+			form := iops.AllForms[(t+t/6)%6]
 			cls := mode + "/" + map[bool]string{false: "shift=0", true: "shifted"}[shifted]
 			desc := func() string {
 				s := fmt.Sprintf("iop.Evaluate(f, r(provided=%v), %s", t%4 < 2, form)
@@ -389,20 +389,22 @@ func (e *env) shuffled() {
 		sizes = append(sizes, 128)
 	}
 	if e.race {
-		sizes, trials = []int{8, 128}, 4
+		sizes, trials = []int{8, 128}, 12
 	}
 	for _, N := range sizes {
 		for t := 0; t < trials; t++ {
+			// t = 6u + f: expected form f, nbPolynomials and domain argument vary with u so that every pairing occurs
+			u, fi := t/6, t%6
 			variant := "default"
-			passDomain := t%2 == 0
-			if passDomain && t%4 == 0 {
+			passDomain := (u/3+fi)%2 == 0
+			if passDomain && (u+fi/2)%2 == 0 {
 				variant = "shift"
 			}
 			D := e.domain(N, variant)
 			if !D.ok {
 				continue
 			}
-			m := 1 + (t/2)%3
+			m := 1 + u%3
 			num, den := e.ratioInputs(D, m, t), e.ratioInputs(D, m, t+3)
 			beta := e.rng.BigBelow(F.P)
 			form := iops.AllForms[t%6]
@@ -465,26 +467,27 @@ func (e *env) copyConstraint() {
 		sizes = append(sizes, 512)
 	}
 	if e.race {
-		sizes, trials = []int{8, 128}, 4
+		sizes, trials = []int{8, 128}, 12
 	}
 	for _, N := range sizes {
 		for t := 0; t < trials; t++ {
+			u, fi := t/6, t%6
 			variant := "default"
-			passDomain := t%2 == 0
-			if passDomain && t%4 == 0 {
+			passDomain := (u/3+fi)%2 == 0
+			if passDomain && (u+fi/2)%2 == 0 {
 				variant = "shift"
 			}
 			D := e.domain(N, variant)
 			if !D.ok {
 				continue
 			}
-			m := 1 + (t/2)%3
+			m := 1 + u%3
 			ins := e.ratioInputs(D, m, t)
 			beta, gamma := e.rng.BigBelow(F.P), e.rng.BigBelow(F.P)
 			form := iops.AllForms[t%6]
 			var perm []int64
 			pcls := "random-permutation"
-			switch t % 3 {
+			switch (u + fi) % 3 {
 			case 0:
 				for _, v := range e.rng.Perm(m * N) {
 					perm = append(perm, int64(v))
